@@ -3,7 +3,8 @@
             /repo/internal/frontend/lexer/tokenizer.go (pattern table, handlers, Tokenize main loop),
             /repo/internal/utils/numeric/numeric.go (NumberPattern).
    Source text = list of bytes, a byte is a Z in 0..255.  Definitions only. *)
-From Coq Require Import ZArith List Bool.
+From Coq Require Import ZArith List Bool Ascii.
+From Coq Require String.
 Import ListNotations.
 Open Scope Z_scope.
 
@@ -340,8 +341,16 @@ Definition lex_bad (s : list Z) : list pos := bad_loop (S (length s)) pos0 s.
 Definition insert_at (s : list Z) (g : nat) (t : list Z) : list Z := firstn g s ++ t ++ skipn g s.
 
 (* ---------------------------------------------------------------- correspondence support: checksum of a token list *)
-Definition MODP : Z := 2305843009213693951.   (* 2^61 - 1 *)
-Definition mix (h x : Z) : Z := (h * 1000003 + x + 7) mod MODP.
+(* sources are handed over as lower-case hex strings (fast to parse) *)
+Definition hexval (a : ascii) : Z := let n := Z.of_N (N_of_ascii a) in if n <? 58 then n - 48 else n - 87.
+Fixpoint unhex (s : String.string) : list Z :=
+  match s with
+  | String.String a (String.String b r) => (hexval a * 16 + hexval b) :: unhex r
+  | _ => []
+  end.
+
+Definition MASK : Z := 1073741823.   (* 2^30 - 1 *)
+Definition mix (h x : Z) : Z := Z.land (5 * h + x + 7) MASK.
 Definition mix_pos (h : Z) (p : pos) : Z := mix (mix (mix h (line p)) (col p)) (idx p).
 Definition mix_tok (h : Z) (t : tok) : Z := mix_pos (mix_pos (mix h (tcls t)) (tstart t)) (tend t).
 Definition toks_sum (ts : list tok) : Z := fold_left mix_tok ts 0.
